@@ -408,6 +408,9 @@ def oracle_trcard(card, out):
         if max(abs(a - b) for a, b in zip(mat.reshape(9), given)) > 2e-3:
             return 'adjusted matrix far from the rounded input'
         return None
+    if card['mask'] == 'none' and np.abs(mat - np.eye(3)).max() > 1e-12:
+        return ('a card with only a displacement (starred or not) must be '
+                'a pure translation')
     if np.abs(mat @ mat.T - np.eye(3)).max() > 1e-9:
         return 'completed matrix is not orthonormal'
     if abs(np.linalg.det(mat) - 1) > 1e-9:
@@ -704,6 +707,16 @@ def tr_spec(rng, inline=False, star=None, b=None, origin=None):
     return {'O': tuple(origin), 'B': flat, 'star': star, 'print': printed}
 
 
+def card_spec(rng):
+    '''A TR data card for the decks: mostly 12 entries, sometimes only the
+    displacement (TRn / *TRn dx dy dz: a pure translation, starred or not).'''
+    if rng.random() < 0.25:
+        origin = gen_origin(rng)
+        return {'O': tuple(origin), 'B': None, 'star': rng.random() < 0.6,
+                'print': list(origin)}
+    return tr_spec(rng)
+
+
 def render(deck):
     '''deck.render with our own spelling of the TR cards (J placeholders).'''
     copy = dict(deck)
@@ -748,15 +761,15 @@ def gen_deck(rng, mode):
                 n = rng.randint(1, 40)
                 while n in transforms:
                     n += 1
-                transforms[n] = tr_spec(rng)
-                if rng.random() < 0.2:
+                transforms[n] = card_spec(rng)
+                if transforms[n]['B'] is not None and rng.random() < 0.2:
                     transforms[n] = abbreviate(rng, transforms[n])
                 s['tr'] = n
                 moved.append((s, transforms[n]))
     else:
         if mode == 'trcl_num' or mode == 'implicit':
             n = rng.randint(1, 40)
-            transforms[n] = tr_spec(rng)
+            transforms[n] = card_spec(rng)
             cell1['trcl'] = ('num', n)
             spec = transforms[n]
         elif mode == 'trcl_inline3':
@@ -855,6 +868,8 @@ def gen_facet_deck(rng, mode):
         cell1 = {'id': 1, 'mat': 0, 'rho': None, 'expr': expr,
                  'imp': {'n': 1}, 'u': 0}
         if mode == 'f_trcl_num':
+            if rng.random() < 0.3:
+                spec = card_spec(rng)
             transforms[7] = spec
             cell1['trcl'] = ('num', 7)
         else:
@@ -862,6 +877,49 @@ def gen_facet_deck(rng, mode):
         cells = [cell1, {'id': 2, 'mat': 0, 'rho': None, 'expr': ('#c', 1),
                          'imp': {'n': 1}, 'u': 0}]
         surfs = [body]
+    return {'title': f'C04 sweep {mode}', 'cells': cells, 'surfaces': surfs,
+            'transforms': transforms}, []
+
+
+TWIN_MODES = ['twin_tr'] * 3 + ['twin_trcl'] * 2
+
+
+def gen_twin_deck(rng, mode):
+    '''The SAME surface card placed by two different transformations in one
+    deck (two TR numbers, or a TRCL copy next to the original): the two
+    written surfaces must stay distinct.  Often a torus about its own centre,
+    the displacement zero, so that only the rotation tells the copies apart.'''
+    if rng.random() < 0.6:
+        mn = rng.choice(['tz', 'tx', 'ty'])
+        prm = [0.0, 0.0, 0.0, float(rng.choice([3, 4])),
+               float(rng.choice([0.5, 1.0])), float(rng.choice([0.5, 1.0]))]
+        origin = [0.0, 0.0, 0.0]
+    else:
+        while True:
+            mn, prm = gen_surface(rng, macro=False)
+            if mn in SWEEP_KINDS and mn != 'sq':
+                break
+        origin = gen_origin(rng) if rng.random() < 0.5 else [0.0, 0.0, 0.0]
+    spec_a = tr_spec(rng, origin=list(origin))
+    spec_b = tr_spec(rng, origin=list(origin))
+    surf = {'id': 1, 'mn': mn, 'params': prm, 'tr': None, 'bc': ''}
+
+    def cell(cid, expr, **kw):
+        out = {'id': cid, 'mat': 0, 'rho': None, 'expr': expr,
+               'imp': {'n': 1}, 'u': 0}
+        out.update(kw)
+        return out
+    if mode == 'twin_tr':
+        surfs = [dict(surf, id=1, tr=11), dict(surf, id=2, tr=12)]
+        cells = [cell(1, ('s', -1)), cell(2, ('*', ('s', 1), ('s', -2))),
+                 cell(3, ('*', ('s', 1), ('s', 2)))]
+        transforms = {11: spec_a, 12: spec_b}
+    else:
+        surfs = [surf]
+        cells = [cell(1, ('s', -1), trcl=spec_a),
+                 cell(2, ('*', ('s', -1), ('#c', 1))),
+                 cell(3, ('*', ('s', 1), ('#c', 1)))]
+        transforms = {}
     return {'title': f'C04 sweep {mode}', 'cells': cells, 'surfaces': surfs,
             'transforms': transforms}, []
 
@@ -971,6 +1029,22 @@ CORPUS.update({
         '4 0 #3 u=1 imp:n=1\n\n10 rcc 0 0 -1 0 0 2 1.5\n20 so 6\n\n',
 })
 
+CORPUS.update({
+    # a starred TR card with only a displacement is a pure translation
+    # (seeded C04_E: the padded identity went through to_cos)
+    'star_tr_displacement_only':
+        'star TR displacement only\n1 0 -1 imp:n=1\n2 0 1 -2 trcl=5 imp:n=1\n'
+        '3 0 1 #2 imp:n=1\n\n1 5 c/z 0.5 0 1\n2 rpp -1 1 -0.5 0.5 -2 2\n\n'
+        '*tr5 3 1 0\n',
+    # the same torus about its centre under two rotations: two different
+    # surfaces (seeded C04_F: de-duplication by the SURF text alone)
+    'twin_tilted_tori':
+        'twin tilted tori\n1 0 -1 imp:n=1\n2 0 1 -2 imp:n=1\n3 0 1 2 imp:n=1\n\n'
+        '1 11 tz 0 0 0 4 1 1\n2 12 tz 0 0 0 4 1 1\n\n'
+        '*tr11 0 0 0 0 90 90 90 40 50 90 130 40\n'
+        '*tr12 0 0 0 0 90 90 90 100 10 90 170 100\n',
+})
+
 # decks that MUST be rejected (m = -1 on a TR card used by a surface)
 MUST_REJECT = {
     'tr_card_m_minus_one':
@@ -981,6 +1055,33 @@ MUST_REJECT = {
 WITNESSES = {}      # no open class
 
 WITNESS_DECKS = {
+    'star_tr_displacement_only': {
+        'cells': [{'id': 1, 'mat': 0, 'expr': ('s', -1), 'imp': {'n': 1}},
+                  {'id': 2, 'mat': 0, 'expr': ('*', ('s', 1), ('s', -2)),
+                   'imp': {'n': 1}, 'trcl': ('num', 5)},
+                  {'id': 3, 'mat': 0, 'expr': ('*', ('s', 1), ('#c', 2)),
+                   'imp': {'n': 1}}],
+        'surfaces': [{'id': 1, 'mn': 'c/z', 'params': [0.5, 0.0, 1.0],
+                      'tr': 5},
+                     {'id': 2, 'mn': 'rpp',
+                      'params': [-1.0, 1.0, -0.5, 0.5, -2.0, 2.0]}],
+        'transforms': {5: {'O': (3, 1, 0), 'B': None}}},
+    'twin_tilted_tori': {
+        'cells': [{'id': 1, 'mat': 0, 'expr': ('s', -1), 'imp': {'n': 1}},
+                  {'id': 2, 'mat': 0, 'expr': ('*', ('s', 1), ('s', -2)),
+                   'imp': {'n': 1}},
+                  {'id': 3, 'mat': 0, 'expr': ('*', ('s', 1), ('s', 2)),
+                   'imp': {'n': 1}}],
+        'surfaces': [{'id': 1, 'mn': 'tz', 'tr': 11,
+                      'params': [0.0, 0.0, 0.0, 4.0, 1.0, 1.0]},
+                     {'id': 2, 'mn': 'tz', 'tr': 12,
+                      'params': [0.0, 0.0, 0.0, 4.0, 1.0, 1.0]}],
+        'transforms': {
+            11: {'O': (0, 0, 0), 'B': [math.cos(math.radians(a)) for a in
+                                       (0, 90, 90, 90, 40, 50, 90, 130, 40)]},
+            12: {'O': (0, 0, 0), 'B': [math.cos(math.radians(a)) for a in
+                                       (0, 90, 90, 90, 100, 10, 90, 170,
+                                        100)]}}},
     'facets_under_trcl': {
         'cells': [{'id': 1, 'mat': 0,
                    'expr': ('*', ('f', -10, 1), ('f', 10, 2), ('f', -10, 3),
@@ -1120,22 +1221,31 @@ def run(res, tier, seed, proofs_ok):
         'the identity/no transformation')
 
     res.extra['member_theorems'] = MEMBERS
-    import c04_cov
-    cov = c04_cov.LineCov(c04_cov.anchored_functions())
+    # line coverage is information only: it must never raise
+    cov = None
+    try:
+        import c04_cov
+        funcs, absent = c04_cov.anchored_functions()
+        cov = c04_cov.LineCov(funcs)
+        if absent:
+            res.extra['line_coverage_absent_functions'] = absent
+    except Exception as exc:      # pylint: disable=broad-except
+        res.extra['line_coverage_error'] = repr(exc)[:300]
+        cov = None
+    if cov is None:
+        run_body(res, rng, quick, seed)
+        return
     with cov:
         run_body(res, rng, quick, seed)
-    total, missing = cov.missing(c04_cov.UNREACHABLE)
-    res.obligation(f'line coverage: every reachable line of the anchored '
-                   f'functions ({total} lines, {len(cov.codes)} code objects) '
-                   'is executed by the ties, the corpus and the sweep',
-                   not missing, '; '.join(f'{n}:{ln} {t}'
-                                          for n, ln, t in missing[:12]))
-    for name, lineno, text in missing[:5]:
-        res.violation('correspondence', f'line never executed by the tied '
-                      f'calls: {name}:{lineno} {text}',
-                      {'theorem_or_correspondence': 'line coverage',
-                       'line': [name, lineno, text]}, found_input=False)
-
+    try:
+        total, missing = cov.missing(c04_cov.UNREACHABLE)
+        res.obligation(f'line coverage: every reachable line of the anchored '
+                       f'functions ({total} lines, {len(cov.codes)} code '
+                       'objects) is executed by the ties, the corpus and the '
+                       'sweep', not missing,
+                       '; '.join(f'{n}:{ln} {t}' for n, ln, t in missing[:12]))
+    except Exception as exc:      # pylint: disable=broad-except
+        res.extra['line_coverage_error'] = repr(exc)[:300]
 
 def run_body(res, rng, quick, seed):
     # ---- 0. witnesses of the open classes ---------------------------------
@@ -1163,28 +1273,87 @@ def run_body(res, rng, quick, seed):
                           f'with {exc}, got ok={conv.ok} {conv.exc}',
                           {'input': {'deck': text}}, found_input=True)
 
-    tie_direct(res, rng, 60 if quick else 600)
-    tie_trcards(res, rng, 500 if quick else 5000, 150 if quick else 1500)
-    tie_matrix(res, rng, 300 if quick else 3000)
-    pool = tie_small(res, rng, quick)
-    tie_surfaces(res, rng, 2600 if quick else 26000, pool)
-    tie_entries(res, rng, 300 if quick else 3000, pool)
-    tie_trcl(res, rng, 400 if quick else 4000)
-    tie_implicit(res, rng, 200 if quick else 2000)
-    tie_lattice(res, rng, 40 if quick else 400)
+    # helper-level ties look functions of /repo up by name.  A name that is
+    # gone (renamed / inlined by a refactoring) is not a defect: a tie on a
+    # helper is skipped and recorded, PROVIDED the deck sweep below exercises
+    # the same code through the public entry point (it does: whole
+    # conversions); a function the property's anchors name stays mandatory.
+    guarded(res, 'normalize_transform(direct)+transform_vector', True,
+            tie_direct, res, rng, 60 if quick else 600)
+    guarded(res, 'trcard', False, tie_trcards, res, rng,
+            500 if quick else 5000, 150 if quick else 1500)
+    guarded(res, 'nm+adjust', False, tie_matrix, res, rng,
+            300 if quick else 3000)
+    pool = guarded(res, 'tocos+compose', False, tie_small, res, rng,
+                   quick) or []
+    guarded(res, 'surf', False, tie_surfaces, res, rng,
+            2600 if quick else 26000, pool)
+    guarded(res, 'convert_entry', True, tie_entries, res, rng,
+            300 if quick else 3000, pool)
+    guarded(res, 'trcl+fill (parse_*_kw)', True, tie_trcl, res, rng,
+            400 if quick else 4000)
+    guarded(res, 'implicit (extract_tr_surf_ids)', True, tie_implicit, res,
+            rng, 200 if quick else 2000)
+    guarded(res, 'lattice_filltr (develop_lattice instrumented)', True,
+            tie_lattice, res, rng, 40 if quick else 400)
     with PotRecorder() as recorder:
         sweep_decks(res, rng, 70 if quick else 900)
         # an empty transformation in the list: pot_transform returns the tree
-        from MIP.geom.semantics import Surface, GeomExpression
-        from t4_geom_convert.Kernel.Volume.CellConversion import \
-            CellConversion
-        conv0 = CellConversion(10, 10, {}, {},
-                               {1: mcnp_parts('so', [2.0]),
-                                2: mcnp_parts('px', [1.0])}, {})
-        conv0.apply_trcl([[]], GeomExpression(('*', Surface(-1),
-                                               Surface(2))))
-    tie_pot(res, recorder.records)
+        try:
+            from MIP.geom.semantics import Surface, GeomExpression
+            from t4_geom_convert.Kernel.Volume.CellConversion import \
+                CellConversion
+            conv0 = CellConversion(10, 10, {}, {},
+                                   {1: mcnp_parts('so', [2.0]),
+                                    2: mcnp_parts('px', [1.0])}, {})
+            conv0.apply_trcl([[]], GeomExpression(('*', Surface(-1),
+                                                   Surface(2))))
+        except (AttributeError, ImportError, TypeError) as exc:
+            skipped(res, f'direct apply_trcl call: {exc}')
+    if recorder.active:
+        tie_pot(res, recorder.records)
+    else:
+        skipped(res, 'apply_trcl recorder: CellConversion.apply_trcl not '
+                'present')
 
+
+def need(modpath, *names):
+    '''Resolve functions of /repo by name OUTSIDE call(): a missing name raises
+    AttributeError / ImportError here, which guarded() turns into a recorded
+    skip (helper) or an undischarged obligation (anchored function) instead of
+    a flood of "unexpected exception" alarms.'''
+    import importlib
+    mod = importlib.import_module(modpath)
+    for name in names:
+        obj = mod
+        for part in name.split('.'):
+            obj = getattr(obj, part)
+    return mod
+
+
+def skipped(res, what):
+    res.extra.setdefault('skipped', []).append(what)
+    res.count('skipped: ' + what[:80])
+
+
+def guarded(res, label, helper_level, fun, *args):
+    '''Run one tie; a function of /repo that cannot be found by name is not a
+    property failure: helper-level ties are skipped (recorded in the
+    evidence), ties on functions the anchors name become an undischarged
+    obligation without a failing input.'''
+    try:
+        return fun(*args)
+    except (AttributeError, ImportError) as exc:
+        if helper_level:
+            skipped(res, f'helper-level tie {label}: {exc}')
+            return None
+        res.obligation(f'tie:{label}', False,
+                       f'anchored function not present: {exc}')
+        res.violation('correspondence', f'tie:{label} cannot run: an '
+                      f'anchored function is not present ({exc})',
+                      {'theorem_or_correspondence': f'tie:{label}'},
+                      found_input=False)
+        return None
 
 def report_tie(res, name, n, bad, errs, describe):
     res.obligation(f'tie:{name} ({n} cases: model = implementation)',
@@ -1210,6 +1379,7 @@ def unexpected(res, out, what, payload):
 
 
 def tie_trcards(res, rng, n_valid, n_bad):
+    need('t4_geom_convert.Kernel.Transformation.Transformation', 'normalize_transform'); need('MIP.geom.transforms', 'normalize_transform')
     cases, meta = [], []
     for i in range(n_valid + n_bad):
         card = gen_trcard(rng, valid=i < n_valid)
@@ -1244,6 +1414,7 @@ def tie_trcards(res, rng, n_valid, n_bad):
 
 
 def tie_matrix(res, rng, n):
+    need('t4_geom_convert.Kernel.Transformation.Transformation', 'adjust_matrix', 'normalize_matrix')
     from t4_geom_convert.Kernel.Transformation import Transformation as TR
     nm_cases, nm_meta, adj_cases, adj_meta = [], [], [], []
     doctest = [0.8021, 0.1056, -0.5878, -0.1305, 0.9914, 0.0000,
@@ -1314,6 +1485,7 @@ def tie_matrix(res, rng, n):
 
 def tie_small(res, rng, quick):
     '''to_cos and compose_transform; returns a pool of normalised cards.'''
+    need('t4_geom_convert.Kernel.Transformation.Transformation', 'compose_transform'); need('MIP.geom.transforms', 'to_cos')
     from MIP.geom.transforms import to_cos
     from t4_geom_convert.Kernel.Transformation import Transformation as TR
     angles = [0.0, 30.0, 45.0, 60.0, 90.0, 120.0, 135.0, 180.0, 270.0, 360.0,
@@ -1362,6 +1534,7 @@ def tie_small(res, rng, quick):
 
 
 def tie_surfaces(res, rng, n, pool):
+    need('t4_geom_convert.Kernel.Transformation.Transformation', 'transformation'); need('t4_geom_convert.Kernel.Surface.ConversionSurfaceMCNPToT4', 'conversion_surface_params'); need('t4_geom_convert.Kernel.FileHandlers.Parser.ParseMCNPSurface', 'to_surfaces_mcnp')
     cases, meta = [], []
     n_pts = 10
     for _ in range(n):
@@ -1618,11 +1791,15 @@ class PotRecorder:
 
     def __init__(self):
         self.records = []
+        self.active = False
 
     def __enter__(self):
         from t4_geom_convert.Kernel.Volume import CellConversion as CC
         self.cc = CC
-        self.orig = CC.CellConversion.apply_trcl
+        self.orig = getattr(CC.CellConversion, 'apply_trcl', None)
+        self.active = self.orig is not None
+        if not self.active:
+            return self
         rec = self
 
         def wrapped(conv, trcls, geometry):
@@ -1646,7 +1823,8 @@ class PotRecorder:
         return self
 
     def __exit__(self, *exc):
-        self.cc.CellConversion.apply_trcl = self.orig
+        if self.active:
+            self.cc.CellConversion.apply_trcl = self.orig
 
     def tree(self, node):
         from MIP.geom.semantics import Surface
@@ -1746,6 +1924,7 @@ def tie_pot(res, records):
 def tie_entries(res, rng, n, pool):
     '''convert_mcnp_surface (SurfaceCollection.join) on whole dictionary
     entries: elementary surfaces and every macrobody, moved or not.'''
+    need('t4_geom_convert.Kernel.Transformation.Transformation', 'transformation'); need('t4_geom_convert.Kernel.Surface.ConversionSurfaceMCNPToT4', 'convert_mcnp_surface'); need('t4_geom_convert.Kernel.FileHandlers.Parser.ParseMCNPSurface', 'to_surfaces_mcnp')
     from t4_geom_convert.Kernel.Transformation.Transformation \
         import transformation
     from t4_geom_convert.Kernel.Surface.ConversionSurfaceMCNPToT4 \
@@ -1835,6 +2014,7 @@ def tie_direct(res, rng, n):
     '''Direct calls of Transformation.normalize_transform (0, 3, 12, 13 and
     odd lengths: the branches MIP's padding hides) and of the helper
     Transformation.transform_vector (affine reading).'''
+    need('t4_geom_convert.Kernel.Transformation.Transformation', 'normalize_transform', 'transform_vector')
     from t4_geom_convert.Kernel.Transformation import Transformation as TR
     nt_cases, nt_meta, af_cases, af_meta = [], [], [], []
     for k in range(n):
@@ -1947,6 +2127,7 @@ def oracle_kw(res, elt, toks, trs, shape):
 
 
 def tie_trcl(res, rng, n):
+    need('t4_geom_convert.Kernel.FileHandlers.Parser.ParseMCNPCell', 'ParseMCNPCell.parse_trcl_kw', 'ParseMCNPCell.parse_fill_kw')
     from t4_geom_convert.Kernel.FileHandlers.Parser.ParseMCNPCell \
         import ParseMCNPCell
     obj = ParseMCNPCell.__new__(ParseMCNPCell)
@@ -2052,11 +2233,14 @@ def sweep_decks(res, rng, n):
                                                   'trcl_plain12', 'trcl_13',
                                                   'trcl_abbrev']
     modes += FACET_MODES      # several facets of one macrobody, moved
+    modes += TWIN_MODES       # one surface card under two transformations
     ok = 0
     for _ in range(n):
         mode = rng.choice(modes)
         if mode in FACET_MODES:
             deck, moved = gen_facet_deck(rng, mode)
+        elif mode in TWIN_MODES:
+            deck, moved = gen_twin_deck(rng, mode)
         else:
             deck, moved = gen_deck(rng, mode)
         if mode == 'implicit' and rng.random() < 0.2:
